@@ -60,6 +60,9 @@ structure FnDef where
   /-- C16: the calls of the body in evaluation order, (callee, receiver-or-first-argument), `for`
   loops bracketed — present only for functions that touch an ownership-sensitive primitive -/
   own : List (Nat × Nat) := []
+  /-- C12: the same kind of record (with `if` / `else` / `endif`, `return` and macro heads), for every
+  function of an `impl RawLock for …` -/
+  calls : List (Nat × Nat) := []
   deriving Repr, Inhabited
 
 structure ImplDef where
